@@ -208,9 +208,10 @@ class Module(ABC):
 
         # intercepts calls to channels
         if key in [c._name for c in self.base.channels]:
-            channel_names = [c._name for c in self.channels]
             inds = self.nodes.index[self.nodes[key]].to_numpy()
-            view = self.select(inds) if key in channel_names else self.select(None)
+            # If the channel does not exist in this view, `inds` is empty (which raises
+            # "Nothing in view"). `select(None)` would select everything in the view.
+            view = self.select(inds)
             view._set_controlled_by_param(key)
             return view
 
@@ -220,11 +221,8 @@ class Module(ABC):
                 "global_edge_index"
             ].to_numpy()
             orig_scope = self._scope
-            view = (
-                self.scope("global").edge(syn_inds).scope(orig_scope)
-                if key in self.synapse_names
-                else self.select(None)
-            )
+            # As for channels: no synapse of this type in view -> "Nothing in view".
+            view = self.scope("global").edge(syn_inds).scope(orig_scope)
             view._set_controlled_by_param(key)  # overwrites param set by edge
             # Ensure synapse param sharing works with `edge`
             # `edge` will be removed as part of #463
